@@ -3,7 +3,11 @@
 seeded-table markers) from /verif/seeded/*/meta.json."""
 import json, glob, os, re
 rows = []
-for d in sorted(glob.glob('/verif/seeded/*/')):
+def _key(d):
+    n = os.path.basename(d.rstrip('/'))
+    a, b = n.split('-m')
+    return (a, int(b))
+for d in sorted(glob.glob('/verif/seeded/*/'), key=_key):
     name = os.path.basename(d.rstrip('/'))
     m = json.load(open(d + 'meta.json'))
     summ = ' '.join(str(m.get('summary', '')).split()).replace('|', '/')
